@@ -1,9 +1,12 @@
 import EinxModel.Denote.Fun
 import EinxModel.Proofs.Update
+import EinxModel.Order.Rename
+import EinxModel.Proofs.IR
 /-! Helper lemmas for C08 (equivariance of the loop-notation denotation). -/
 namespace Einx.Denote
 open Einx Einx.IR
 open Einx.Update (mapOpt mapOpt_eq_some_iff mapOpt_length mapOpt_getElem? mapOpt_congr)
+open Einx.Order.Fresh (InjOn)
 
 /-! ### plumbing: `mapM` in `Option` is `mapOpt` -/
 
@@ -1009,5 +1012,736 @@ theorem idCells_regroup_output (vi : List Dim) (si : List Nat) (i : Nat) (pre mi
     funext σ
     simp only [idEntry, flatPos_regroup]
   simp only [idCells, idEntries, this, outAssignments, leavesL_regroup, prod_viewShape_regroup]
+
+/-! ### whole-tensor permutation laws: `extend` is insensitive to leaf order; the leaves of a permuted
+view are the original leaves -/
+
+/-- Full agreement of two assignments (on every name). -/
+def SameGet (σ τ : Assign) : Prop := ∀ n, Assign.get σ n = Assign.get τ n
+
+theorem SameGet.agreeOn {σ τ : Assign} (h : SameGet σ τ) (ls : List Leaf) : AgreeOn σ τ ls :=
+  fun l _ => h l.name
+
+theorem get_append (σ τ : Assign) (n : String) :
+    Assign.get (σ ++ τ) n = match Assign.get σ n with
+      | some x => some x
+      | none => Assign.get τ n := by
+  induction σ with
+  | nil => simp [get_nil]
+  | cons p σ ih =>
+    rw [List.cons_append, get_cons, get_cons]
+    by_cases h : p.1 = n
+    · simp [h]
+    · simp only [h, if_false]; exact ih
+
+/-- What the extended assignment answers: the old value, else `0` for the names of the listed leaves. -/
+theorem extend_get : ∀ (ls : List Leaf) (σ σ' : Assign), extend σ ls = some σ' → ∀ n,
+    Assign.get σ' n = match Assign.get σ n with
+      | some x => some x
+      | none => if ls.any (fun l => l.name == n) then some 0 else none := by
+  intro ls
+  induction ls with
+  | nil =>
+    intro σ σ' h n
+    rw [extend_nil] at h
+    simp only [Option.some.injEq] at h
+    subst h
+    cases Assign.get σ n <;> simp
+  | cons l ls ih =>
+    intro σ σ' h n
+    rw [extend_cons] at h
+    cases hg : Assign.get σ l.name with
+    | some y =>
+      simp only [hg] at h
+      rw [ih σ σ' h n]
+      cases hn : Assign.get σ n with
+      | some x => rfl
+      | none =>
+        have : (l.name == n) = false := by
+          apply beq_eq_false_iff_ne.mpr
+          intro e; rw [e, hn] at hg; exact absurd hg (by simp)
+        simp [List.any_cons, this]
+    | none =>
+      simp only [hg] at h
+      by_cases hs : (l.size == 1) = true
+      · simp only [hs, if_true] at h
+        rw [ih _ σ' h n, get_append]
+        cases hn : Assign.get σ n with
+        | some x => rfl
+        | none =>
+          simp only [get_cons, get_nil, List.any_cons]
+          by_cases e : l.name = n
+          · simp [e]
+          · have : (l.name == n) = false := beq_eq_false_iff_ne.mpr e
+            simp [e, this]
+      · simp [hs] at h
+
+/-- Every leaf is assigned or has length 1. -/
+def Extendable (σ : Assign) (ls : List Leaf) : Prop := ∀ l ∈ ls, Assign.get σ l.name ≠ none ∨ l.size = 1
+
+theorem Consistent.tail {l : Leaf} {ls : List Leaf} (h : Consistent (l :: ls)) : Consistent ls :=
+  fun a ha b hb => h a (List.mem_cons_of_mem _ ha) b (List.mem_cons_of_mem _ hb)
+
+theorem extend_isSome_iff : ∀ (ls : List Leaf), Consistent ls → ∀ σ : Assign,
+    (∃ σ', extend σ ls = some σ') ↔ Extendable σ ls := by
+  intro ls
+  induction ls with
+  | nil => intro _ σ; exact ⟨fun _ l hl => by simp at hl, fun _ => ⟨σ, rfl⟩⟩
+  | cons l ls ih =>
+    intro hc σ
+    rw [extend_cons]
+    cases hg : Assign.get σ l.name with
+    | some y =>
+      simp only []
+      rw [ih hc.tail σ]
+      constructor
+      · intro h l' hl'
+        rcases List.mem_cons.mp hl' with rfl | h'
+        · left; rw [hg]; simp
+        · exact h l' h'
+      · intro h l' hl'; exact h l' (List.mem_cons_of_mem _ hl')
+    | none =>
+      simp only []
+      by_cases hs : (l.size == 1) = true
+      · simp only [hs, if_true]
+        have hs1 : l.size = 1 := by simpa using hs
+        rw [ih hc.tail _]
+        constructor
+        · intro h l' hl'
+          rcases List.mem_cons.mp hl' with rfl | h'
+          · right; exact hs1
+          · rcases h l' h' with h1 | h1
+            · rw [get_append] at h1
+              cases hn : Assign.get σ l'.name with
+              | some x => left; simp
+              | none =>
+                right
+                simp only [hn, get_cons, get_nil] at h1
+                by_cases e : l.name = l'.name
+                · rw [← hc l (List.mem_cons_self ..) l' hl' e]; exact hs1
+                · simp [e] at h1
+            · right; exact h1
+        · intro h l' hl'
+          rcases h l' (List.mem_cons_of_mem _ hl') with h1 | h1
+          · left
+            rw [get_append]
+            cases hn : Assign.get σ l'.name with
+            | some x => simp
+            | none => exact absurd hn h1
+          · right; exact h1
+      · simp only [hs]
+        constructor
+        · rintro ⟨_, h⟩; simp at h
+        · intro h
+          rcases h l (List.mem_cons_self ..) with h1 | h1
+          · exact absurd hg h1
+          · simp [h1] at hs
+
+theorem any_name_congr {ls ls' : List Leaf} (hm : ∀ l, l ∈ ls ↔ l ∈ ls') (n : String) :
+    ls.any (fun l => l.name == n) = ls'.any (fun l => l.name == n) := by
+  rw [Bool.eq_iff_iff]
+  simp only [List.any_eq_true]
+  constructor
+  · rintro ⟨l, hl, h⟩; exact ⟨l, (hm l).mp hl, h⟩
+  · rintro ⟨l, hl, h⟩; exact ⟨l, (hm l).mpr hl, h⟩
+
+/-- **`extend` is insensitive to the order of the leaves** (for consistent leaves): on two lists with the same
+members it fails on both, or succeeds on both with assignments that agree on every name. -/
+theorem extend_perm {ls ls' : List Leaf} (hm : ∀ l, l ∈ ls ↔ l ∈ ls') (hc : Consistent ls) (σ τ : Assign)
+    (hst : SameGet σ τ) :
+    (extend σ ls = none ∧ extend τ ls' = none) ∨
+      ∃ σ1 τ1, extend σ ls = some σ1 ∧ extend τ ls' = some τ1 ∧ SameGet σ1 τ1 ∧ Extendable σ ls := by
+  have hc' : Consistent ls' := fun a ha b hb => hc a ((hm a).mpr ha) b ((hm b).mpr hb)
+  have hE : Extendable σ ls ↔ Extendable τ ls' := by
+    constructor
+    · intro h l hl; rw [← hst]; exact h l ((hm l).mpr hl)
+    · intro h l hl; rw [hst]; exact h l ((hm l).mp hl)
+  by_cases hx : Extendable σ ls
+  · obtain ⟨σ1, h1⟩ := (extend_isSome_iff ls hc σ).mpr hx
+    obtain ⟨τ1, h2⟩ := (extend_isSome_iff ls' hc' τ).mpr (hE.mp hx)
+    refine Or.inr ⟨σ1, τ1, h1, h2, ?_, hx⟩
+    intro n
+    rw [extend_get ls σ σ1 h1 n, extend_get ls' τ τ1 h2 n, hst n, any_name_congr hm n]
+  · left
+    constructor
+    · cases h : extend σ ls with
+      | none => rfl
+      | some s => exact absurd ((extend_isSome_iff ls hc σ).mp ⟨s, h⟩) hx
+    · cases h : extend τ ls' with
+      | none => rfl
+      | some s => exact absurd (hE.mpr ((extend_isSome_iff ls' hc' τ).mp ⟨s, h⟩)) hx
+
+theorem position_sameGet {σ τ : Assign} (h : SameGet σ τ) (v : List Dim) : position v σ = position v τ :=
+  position_congr v (h.agreeOn _)
+
+theorem cellAt_sameGet {σ τ : Assign} (h : SameGet σ τ) (v : List Dim) (s : List Nat) (i : Nat) :
+    cellAt v s i σ = cellAt v s i τ := cellAt_congr v s i (h.agreeOn _)
+
+/-! membership in permuted lists and in leaves -/
+
+theorem mem_permuteL {α : Type} {perm : List Nat} {l l' : List α} (hperm : isPermOf perm l.length = true)
+    (h : permuteL perm l = some l') (a : α) : a ∈ l' ↔ a ∈ l := by
+  obtain ⟨_, _, hall, hlt⟩ := isPermOf_spec hperm
+  unfold permuteL at h
+  have hm := (mapOpt_eq_some_iff _ _ _).mp h
+  have e : a ∈ l' ↔ some a ∈ l'.map some := by simp
+  rw [e, ← hm]
+  simp only [List.mem_map]
+  constructor
+  · rintro ⟨i, _, hi⟩; exact List.mem_of_getElem? hi
+  · intro ha
+    obtain ⟨i, hi, rfl⟩ := List.getElem_of_mem ha
+    exact ⟨i, hall i hi, by simp [hi]⟩
+
+theorem mem_leavesL (v : List Dim) (l : Leaf) : l ∈ Dim.leavesL v ↔ ∃ d ∈ v, l ∈ d.leaves := by
+  induction v with
+  | nil => simp [Dim.leavesL]
+  | cons d v ih => simp [Dim.leavesL, ih]
+
+theorem leavesL_permute {perm : List Nat} {v v' : List Dim} (hperm : isPermOf perm v.length = true)
+    (h : permuteL perm v = some v') (l : Leaf) : l ∈ Dim.leavesL v ↔ l ∈ Dim.leavesL v' := by
+  rw [mem_leavesL, mem_leavesL]
+  constructor
+  · rintro ⟨d, hd, hl⟩; exact ⟨d, (mem_permuteL hperm h d).mpr hd, hl⟩
+  · rintro ⟨d, hd, hl⟩; exact ⟨d, (mem_permuteL hperm h d).mp hd, hl⟩
+
+/-! mapping cells through scatter/gather -/
+
+theorem mapOpt_optmap {α β γ : Type} (f : α → Option β) (g : β → γ) (l : List α) :
+    mapOpt (fun a => (f a).map g) l = (mapOpt f l).map (List.map g) := by
+  induction l with
+  | nil => rfl
+  | cons a as ih =>
+    simp only [mapOpt, ih]
+    cases f a <;> cases mapOpt f as <;> rfl
+
+theorem scatterFold_map (h : Cell → Cell) (es : List (Nat × Cell)) : ∀ init : List (Option Cell),
+    (es.map (fun e => (e.1, h e.2))).foldl (fun acc e => acc.set e.1 (some e.2)) (init.map (Option.map h))
+      = (es.foldl (fun acc e => acc.set e.1 (some e.2)) init).map (Option.map h) := by
+  induction es with
+  | nil => intro init; rfl
+  | cons e es ih =>
+    intro init
+    simp only [List.map_cons, List.foldl_cons]
+    rw [← ih, List.map_set]
+    rfl
+
+theorem gatherAll_map (h : Cell → Cell) (n : Nat) (es : List (Nat × Cell)) :
+    gatherAll n (es.map (fun e => (e.1, h e.2))) = (gatherAll n es).map (List.map h) := by
+  unfold gatherAll scatter
+  have := scatterFold_map h es (List.replicate n none)
+  simp only [List.map_replicate, Option.map_none] at this
+  rw [this, mapOpt_map]
+  exact mapOpt_optmap id h _
+
+/-! numpy's transpose plan, independent of the multi-index -/
+
+theorem transpose_plan_ok (shapes : List (List Nat)) (x : Nat) (sx perm : List Nat)
+    (hx : shapes[x]? = some sx) (hperm : isPermOf perm sx.length = true) :
+    ∃ plan, planInstr shapes (.transpose x perm) = .ok plan ∧ permuteL perm sx = some plan.shape ∧
+      plan.cells.length = prod plan.shape ∧
+      ∀ p, Valid sx p → ∃ p', permuteL perm p = some p' ∧ Valid plan.shape p' ∧
+        plan.cells[ravel plan.shape p']? = some (.src x (ravel sx p)) := by
+  obtain ⟨hisp, hlen, hall, hlt⟩ := isPermOf_spec hperm
+  refine ⟨tabulate (perm.map (fun a => sx.getD a 0)) (fun o =>
+      Cell.src x (ravel sx ((List.range sx.length).map (fun a => o.getD (perm.idxOf a) 0)))),
+    ?_, ?_, ?_, ?_⟩
+  · simp only [planInstr, getShape, hx, hisp, bind, Except.bind, pure, Except.pure, Bool.not_true]
+    rfl
+  · exact permuteL_eq_map 0 perm sx hlt
+  · simp [tabulate]
+  · intro p hv
+    have hpl : p.length = sx.length := valid_length hv
+    refine ⟨perm.map (fun a => p.getD a 0), permuteL_eq_map 0 perm p (by rw [hpl]; exact hlt),
+      valid_permute hv perm hlt, ?_⟩
+    simp only [tabulate]
+    have hv' := valid_permute hv perm hlt
+    have := tabulate_getElem? (perm.map (fun a => sx.getD a 0))
+      (fun o => Cell.src x (ravel sx ((List.range sx.length).map (fun a => o.getD (perm.idxOf a) 0)))) _ hv'
+    simp only [tabulate] at this
+    rw [this, unpermute perm p sx.length hpl hall]
+
+/-- `σ` is in range wherever it is defined on the listed leaves. -/
+def InRangeOn (σ : Assign) (ls : List Leaf) : Prop := ∀ l ∈ ls, ∀ y, Assign.get σ l.name = some y → y < l.size
+
+theorem bounded_of_extend {σ σ1 : Assign} {ls : List Leaf} (hr : InRangeOn σ ls) (hx : Extendable σ ls)
+    (h : extend σ ls = some σ1) : BoundedOn σ1 ls := by
+  intro l hl
+  have hg := extend_get ls σ σ1 h l.name
+  cases hn : Assign.get σ l.name with
+  | some y => exact ⟨y, by rw [hg, hn], hr l hl y hn⟩
+  | none =>
+    have hany : ls.any (fun l' => l'.name == l.name) = true := by
+      simp only [List.any_eq_true]; exact ⟨l, hl, by simp⟩
+    rcases hx l hl with h1 | h1
+    · exact absurd hn h1
+    · exact ⟨0, by rw [hg, hn]; simp [hany], by omega⟩
+
+theorem BoundedOn.sameGet {σ τ : Assign} {ls : List Leaf} (h : BoundedOn σ ls) (hs : SameGet σ τ) : BoundedOn τ ls :=
+  fun l hl => by obtain ⟨x, hx, hlt⟩ := h l hl; exact ⟨x, by rw [← hs]; exact hx, hlt⟩
+
+theorem BoundedOn.mem {σ : Assign} {ls ls' : List Leaf} (h : BoundedOn σ ls) (hm : ∀ l, l ∈ ls' → l ∈ ls) :
+    BoundedOn σ ls' := fun l hl => h l (hm l hl)
+
+/-- Reading the permuted view from the transposed tensor = reading the original view from the original tensor
+(one in-range assignment, given plan). -/
+theorem cellAt_permute_input {v v' : List Dim} {perm : List Nat} {shapes : List (List Nat)} {x : Nat} {σ : Assign}
+    {plan : Plan} (hperm : isPermOf perm v.length = true) (hv' : permuteL perm v = some v')
+    (hc : Dim.concatFreeL v = true) (hb : BoundedOn σ (Dim.leavesL v))
+    (hx : shapes[x]? = some (viewShape v)) (hplan : planInstr shapes (.transpose x perm) = .ok plan) :
+    plan.shape = viewShape v' ∧
+    (cellAt v' (viewShape v') 0 σ).map (subst [⟨plan.shape, plan.cells⟩]) = cellAt v (viewShape v) x σ := by
+  obtain ⟨p, hp, hv⟩ := position_valid v hc hb
+  have hlen : (viewShape v).length = v.length := by simp [viewShape]
+  obtain ⟨plan2, hplan2, hshape, _, hreads⟩ :=
+    transpose_plan_ok shapes x (viewShape v) perm hx (by rw [hlen]; exact hperm)
+  rw [hplan] at hplan2
+  have : plan = plan2 := Except.ok.inj hplan2
+  subst this
+  obtain ⟨p', hp', _, hcell⟩ := hreads p hv
+  have hs : plan.shape = viewShape v' := by
+    have := viewShape_permute hv'
+    rw [hshape] at this
+    exact Option.some.inj this
+  refine ⟨hs, ?_⟩
+  have hpos' : position v' σ = some p' := by rw [position_permute hp hv', hp']
+  rw [← hs]
+  simp only [cellAt, flatPos, hpos', hp, Option.map_some, subst_src, hcell, Option.getD_some]
+
+theorem idEntry_permute_input {v v' w : List Dim} {perm : List Nat} {shapes : List (List Nat)} {x : Nat} {σ : Assign}
+    {sw : List Nat} {plan : Plan} (hperm : isPermOf perm v.length = true) (hv' : permuteL perm v = some v')
+    (hc : Dim.concatFreeL v = true) (hcons : Consistent (Dim.leavesL v)) (hr : InRangeOn σ (Dim.leavesL v))
+    (hx : shapes[x]? = some (viewShape v)) (hplan : planInstr shapes (.transpose x perm) = .ok plan) :
+    (idEntry v' (viewShape v') 0 w sw σ).map (fun e => (e.1, subst [⟨plan.shape, plan.cells⟩] e.2))
+      = idEntry v (viewShape v) x w sw σ := by
+  rcases extend_perm (leavesL_permute hperm hv') hcons σ σ (fun _ => rfl) with ⟨h1, h2⟩ | ⟨σ1, σ1', h1, h2, hs, hE⟩
+  · simp [idEntry, h1, h2]
+  · have hb : BoundedOn σ1 (Dim.leavesL v) := bounded_of_extend hr hE h1
+    have hcell := (cellAt_permute_input hperm hv' hc (hb.sameGet hs) hx hplan).2
+    rw [← cellAt_sameGet hs v] at hcell
+    simp only [idEntry, h1, h2]
+    cases flatPos w sw σ with
+    | none => rfl
+    | some po =>
+      rw [← hcell]
+      cases cellAt v' (viewShape v') 0 σ1' <;> rfl
+
+theorem assignments_get_some : ∀ (axes : List (String × Nat)) (σ : Assign), σ ∈ assignments axes →
+    ∀ n y, Assign.get σ n = some y → ∃ s, (n, s) ∈ axes ∧ y < s := by
+  intro axes
+  induction axes with
+  | nil =>
+    intro σ hσ n y h
+    simp only [assignments, List.mem_singleton] at hσ
+    subst hσ; simp [get_nil] at h
+  | cons a rest ih =>
+    obtain ⟨n0, s0⟩ := a
+    intro σ hσ n y h
+    simp only [assignments, List.mem_flatMap, List.mem_range, List.mem_map] at hσ
+    obtain ⟨i, hi, σ', hσ', rfl⟩ := hσ
+    rw [get_cons] at h
+    by_cases hn : n0 = n
+    · simp only [hn, if_true, Option.some.injEq] at h
+      subst h
+      exact ⟨s0, by rw [← hn]; exact List.mem_cons_self .., hi⟩
+    · simp only [hn, if_false] at h
+      obtain ⟨s, hs, hlt⟩ := ih σ' hσ' n y h
+      exact ⟨s, List.mem_cons_of_mem _ hs, hlt⟩
+
+/-- An assignment of the iteration space of `w` is in range on every consistent leaf list containing the
+leaves of `w`. -/
+theorem outAssignments_inRange {w : List Dim} {ls : List Leaf} (hcons : Consistent (ls ++ Dim.leavesL w))
+    {σ : Assign} (hσ : σ ∈ outAssignments w) : InRangeOn σ ls := by
+  intro l hl y hy
+  obtain ⟨s, hs, hlt⟩ := assignments_get_some _ σ hσ l.name y hy
+  obtain ⟨_, _, h3⟩ := axesFold_mem (Dim.leavesL w) []
+  rcases h3 _ hs with h | ⟨l', hl', hn, hsz⟩
+  · simp at h
+  · have := hcons l (List.mem_append_left _ hl) l' (List.mem_append_right _ hl') hn.symm
+    simp only at hsz
+    rw [this, hsz]; exact hlt
+
+/-- **Permuting an input view together with its tensor leaves the whole result unchanged** (`id`). -/
+theorem idCells_permute_input {v v' w : List Dim} {perm : List Nat} {shapes : List (List Nat)} {x : Nat}
+    {sw : List Nat} {plan : Plan} (hperm : isPermOf perm v.length = true) (hv' : permuteL perm v = some v')
+    (hc : Dim.concatFreeL v = true) (hcons : Consistent (Dim.leavesL v ++ Dim.leavesL w))
+    (hx : shapes[x]? = some (viewShape v)) (hplan : planInstr shapes (.transpose x perm) = .ok plan) :
+    (idCells v' (viewShape v') 0 w sw).map (List.map (subst [⟨plan.shape, plan.cells⟩]))
+      = idCells v (viewShape v) x w sw := by
+  have hcv : Consistent (Dim.leavesL v) :=
+    fun a ha b hb => hcons a (List.mem_append_left _ ha) b (List.mem_append_left _ hb)
+  have he : mapOpt (idEntry v (viewShape v) x w sw) (outAssignments w)
+      = (mapOpt (idEntry v' (viewShape v') 0 w sw) (outAssignments w)).map
+          (List.map (fun e => (e.1, subst [⟨plan.shape, plan.cells⟩] e.2))) := by
+    rw [← mapOpt_optmap]
+    apply mapOpt_congr
+    intro σ hσ
+    exact (idEntry_permute_input hperm hv' hc hcv (outAssignments_inRange hcons hσ) hx hplan).symm
+  simp only [idCells, idEntries, he]
+  cases mapOpt (idEntry v' (viewShape v') 0 w sw) (outAssignments w) with
+  | none => rfl
+  | some es => simp only [Option.map_some, gatherAll_map]
+
+
+/-! ### permuting the output view: the transposed result -/
+
+theorem subst_src_reg (regs : List (Tensor Cell)) (r k : Nat) (T : Tensor Cell) (h : regs[r]? = some T) :
+    subst regs (.src r k) = (T.data[k]?).getD .bad := by
+  simp [subst, evalCell, readReg, symAlg, h]
+
+/-- The names an assignment of the iteration space of `w` defines are exactly the names of the leaves of `w`. -/
+theorem outAssignments_dom {w : List Dim} {σ : Assign} (hσ : σ ∈ outAssignments w) (n : String) :
+    Assign.get σ n ≠ none ↔ ∃ l ∈ Dim.leavesL w, l.name = n := by
+  obtain ⟨_, h2, h3⟩ := axesFold_mem (Dim.leavesL w) []
+  constructor
+  · intro h
+    cases hg : Assign.get σ n with
+    | none => exact absurd hg h
+    | some y =>
+      obtain ⟨s, hs, _⟩ := assignments_get_some _ σ hσ n y hg
+      rcases h3 _ hs with h | ⟨l, hl, hn, _⟩
+      · simp at h
+      · exact ⟨l, hl, hn⟩
+  · rintro ⟨l, hl, rfl⟩
+    obtain ⟨s, hs⟩ := h2 l hl
+    obtain ⟨x, _, hx, _, _⟩ := assignments_bounded _ σ hσ _ hs
+    rw [hx]; simp
+
+theorem sameGet_of_agreeOn {w w' : List Dim} {σ τ : Assign} (hm : ∀ l, l ∈ Dim.leavesL w ↔ l ∈ Dim.leavesL w')
+    (hσ : σ ∈ outAssignments w) (hτ : τ ∈ outAssignments w') (ha : AgreeOn σ τ (Dim.leavesL w)) : SameGet σ τ := by
+  intro n
+  by_cases h : ∃ l ∈ Dim.leavesL w, l.name = n
+  · obtain ⟨l, hl, rfl⟩ := h; exact ha l hl
+  · have h' : ¬ ∃ l ∈ Dim.leavesL w', l.name = n := by
+      rintro ⟨l, hl, hn⟩; exact h ⟨l, (hm l).mpr hl, hn⟩
+    have e1 : Assign.get σ n = none := by
+      cases hg : Assign.get σ n with
+      | none => rfl
+      | some y => exact absurd ((outAssignments_dom hσ n).mp (by rw [hg]; simp)) h
+    have e2 : Assign.get τ n = none := by
+      cases hg : Assign.get τ n with
+      | none => rfl
+      | some y => exact absurd ((outAssignments_dom hτ n).mp (by rw [hg]; simp)) h'
+    rw [e1, e2]
+
+/-- **Permuting the output view permutes the result**: the cells of the permuted operation are the cells of
+numpy's transpose plan applied to the original result (register `r`). -/
+theorem idCells_permute_output {vi : List Dim} {si : List Nat} {i : Nat} {w w' : List Dim} {perm : List Nat}
+    {shapes : List (List Nat)} {r : Nat} {plan : Plan} {cs cs' : List Cell} (regs : List (Tensor Cell))
+    (hperm : isPermOf perm w.length = true) (hw' : permuteL perm w = some w')
+    (hc : Dim.concatFreeL w = true) (hcons : Consistent (Dim.leavesL w))
+    (hr : shapes[r]? = some (viewShape w)) (hplan : planInstr shapes (.transpose r perm) = .ok plan)
+    (hregs : regs[r]? = some ⟨viewShape w, cs⟩)
+    (h : idCells vi si i w (viewShape w) = some cs) (h' : idCells vi si i w' (viewShape w') = some cs') :
+    plan.shape = viewShape w' ∧ cs' = plan.cells.map (subst regs) := by
+  have hlen : (viewShape w).length = w.length := by simp [viewShape]
+  obtain ⟨plan2, hplan2, hshape, hclen, hreads⟩ :=
+    transpose_plan_ok shapes r (viewShape w) perm hr (by rw [hlen]; exact hperm)
+  rw [hplan] at hplan2
+  have : plan = plan2 := Except.ok.inj hplan2
+  subst this
+  have hs : plan.shape = viewShape w' := by
+    have := viewShape_permute hw'
+    rw [hshape] at this
+    exact Option.some.inj this
+  refine ⟨hs, ?_⟩
+  have hm := leavesL_permute hperm hw'
+  have hcons' : Consistent (Dim.leavesL w') := fun a ha b hb => hcons a ((hm a).mpr ha) b ((hm b).mpr hb)
+  obtain ⟨hl, hall⟩ := idCells_spec h
+  obtain ⟨hl', hall'⟩ := idCells_spec h'
+  apply List.ext_getElem?
+  intro k'
+  by_cases hk' : k' < prod (viewShape w')
+  · obtain ⟨σ', hσ', σ1', hext', hpos', hcell'⟩ := hall' k' hk'
+    have hb' : BoundedOn σ' (Dim.leavesL w') := outAssignments_bounded hcons' hσ'
+    have hb : BoundedOn σ' (Dim.leavesL w) := hb'.mem (fun l hl => (hm l).mp hl)
+    obtain ⟨p, hp, hv⟩ := position_valid w hc hb
+    obtain ⟨p', hp', _, hcell⟩ := hreads p hv
+    have hposw' : position w' σ' = some p' := by rw [position_permute hp hw', hp']
+    have hk'eq : k' = ravel (viewShape w') p' := by
+      simp only [flatPos, hposw', Option.map_some, Option.some.injEq] at hpos'
+      exact hpos'.symm
+    have hklt : ravel (viewShape w) p < prod (viewShape w) := ravel_lt hv
+    obtain ⟨τ, hτ, τ1, hext, hpos, hcellτ⟩ := hall _ hklt
+    have hbτ : BoundedOn τ (Dim.leavesL w) := outAssignments_bounded hcons hτ
+    have hag : AgreeOn τ σ' (Dim.leavesL w) :=
+      flatPos_inj w hc hbτ hb (by rw [hpos]; simp [flatPos, hp])
+    have hsg : SameGet τ σ' := sameGet_of_agreeOn hm hτ hσ' hag
+    have hsg1 : SameGet τ1 σ1' := by
+      intro n
+      rw [extend_get _ τ τ1 hext n, extend_get _ σ' σ1' hext' n, hsg n]
+    have hklen : ravel (viewShape w) p < cs.length := by rw [hl]; exact hklt
+    rw [List.getElem?_map, hk'eq, ← hs, hcell, Option.map_some, subst_src_reg regs r _ _ hregs]
+    rw [hs, ← hk'eq, ← hcell', ← cellAt_sameGet hsg1, hcellτ]
+    simp [List.getElem?_eq_getElem hklen]
+  · have h1 : cs'.length ≤ k' := by omega
+    have h2 : (plan.cells.map (subst regs)).length ≤ k' := by
+      rw [List.length_map, hclen, hs]; omega
+    rw [List.getElem?_eq_none h1, List.getElem?_eq_none h2]
+
+/-! ### renaming that is injective only on the names in use -/
+
+mutual
+/-- All axis names of an expression. -/
+def Expr.names : Expr → List String
+  | .axis n _ => [n]
+  | .list cs => Expr.namesL cs
+  | .flat e => e.names
+  | .concat cs => Expr.namesL cs
+  | .br e => e.names
+def Expr.namesL : List Expr → List String
+  | [] => []
+  | c :: cs => c.names ++ Expr.namesL cs
+end
+
+mutual
+theorem Expr.rename_congr {ρ ρ' : String → String} : ∀ e : Expr, (∀ n ∈ e.names, ρ n = ρ' n) → e.rename ρ = e.rename ρ'
+  | .axis n v, h => by simp [Expr.rename, h n (by simp [Expr.names])]
+  | .list cs, h => by simp only [Expr.rename]; rw [Expr.renameL_congr cs (by simpa [Expr.names] using h)]
+  | .flat e, h => by simp only [Expr.rename]; rw [Expr.rename_congr e (by simpa [Expr.names] using h)]
+  | .concat cs, h => by simp only [Expr.rename]; rw [Expr.renameL_congr cs (by simpa [Expr.names] using h)]
+  | .br e, h => by simp only [Expr.rename]; rw [Expr.rename_congr e (by simpa [Expr.names] using h)]
+theorem Expr.renameL_congr {ρ ρ' : String → String} :
+    ∀ cs : List Expr, (∀ n ∈ Expr.namesL cs, ρ n = ρ' n) → Expr.renameL ρ cs = Expr.renameL ρ' cs
+  | [], _ => rfl
+  | c :: cs, h => by
+    simp only [Expr.renameL]
+    rw [Expr.rename_congr c (fun n hn => h n (by simp [Expr.namesL, hn])),
+      Expr.renameL_congr cs (fun n hn => h n (by simp [Expr.namesL, hn]))]
+end
+
+def lenBound (ρ : String → String) : List String → Nat
+  | [] => 0
+  | m :: ms => (ρ m).length + lenBound ρ ms
+
+theorem le_lenBound (ρ : String → String) : ∀ (N : List String) (m : String), m ∈ N → (ρ m).length ≤ lenBound ρ N
+  | [], _, h => by simp at h
+  | a :: N, m, h => by
+    simp only [lenBound]
+    rcases List.mem_cons.mp h with rfl | h
+    · omega
+    · have := le_lenBound ρ N m h; omega
+
+/-- An everywhere-injective renaming that agrees with `ρ` on `N` (names outside `N` are sent to strings longer
+than every image of `N`). -/
+def extInj (ρ : String → String) (N : List String) (n : String) : String :=
+  if n ∈ N then ρ n else n ++ "".pushn 'x' (lenBound ρ N + 1)
+
+theorem extInj_agree (ρ : String → String) (N : List String) {n : String} (h : n ∈ N) : extInj ρ N n = ρ n := by
+  simp [extInj, h]
+
+theorem extInj_injective {ρ : String → String} {N : List String} (h : InjOn ρ N) : Function.Injective (extInj ρ N) := by
+  intro a b hab
+  unfold extInj at hab
+  by_cases ha : a ∈ N <;> by_cases hb : b ∈ N
+  · simp only [ha, hb, if_true] at hab; exact h a ha b hb hab
+  · simp only [ha, hb, if_true, if_false] at hab
+    have := congrArg String.length hab
+    rw [String.length_append, String.length_pushn] at this
+    have := le_lenBound ρ N a ha
+    simp at *; omega
+  · simp only [ha, hb, if_true, if_false] at hab
+    have := congrArg String.length hab
+    rw [String.length_append, String.length_pushn] at this
+    have := le_lenBound ρ N b hb
+    simp at *; omega
+  · simp only [ha, hb, if_false] at hab
+    exact (String.append_left_inj _).mp hab
+
+/-- **Renaming that is injective on the axis names of the operation** leaves the `id` denotation unchanged. -/
+theorem denoteIdFun_rename_on {ρ : String → String} (exprsIn exprsOut : List Expr)
+    (hρ : InjOn ρ (Expr.namesL exprsIn ++ Expr.namesL exprsOut)) :
+    denoteIdFun (Expr.renameL ρ exprsIn) (Expr.renameL ρ exprsOut) = denoteIdFun exprsIn exprsOut := by
+  have h := denoteIdFun_rename (extInj_injective hρ) exprsIn exprsOut
+  rw [Expr.renameL_congr (ρ := ρ) (ρ' := extInj ρ (Expr.namesL exprsIn ++ Expr.namesL exprsOut)) exprsIn
+      (fun n hn => (extInj_agree ρ _ (List.mem_append_left _ hn)).symm),
+    Expr.renameL_congr (ρ := ρ) (ρ' := extInj ρ (Expr.namesL exprsIn ++ Expr.namesL exprsOut)) exprsOut
+      (fun n hn => (extInj_agree ρ _ (List.mem_append_right _ hn)).symm)]
+  exact h
+
+theorem denoteElementwiseFun_rename_on {ρ : String → String} (f : String) (exprsIn : List Expr) (exprOut : Expr)
+    (hρ : InjOn ρ (Expr.namesL exprsIn ++ exprOut.names)) :
+    denoteElementwiseFun f (Expr.renameL ρ exprsIn) (exprOut.rename ρ) = denoteElementwiseFun f exprsIn exprOut := by
+  have h := denoteElementwiseFun_rename (extInj_injective hρ) f exprsIn exprOut
+  rw [Expr.renameL_congr (ρ := ρ) (ρ' := extInj ρ (Expr.namesL exprsIn ++ exprOut.names)) exprsIn
+      (fun n hn => (extInj_agree ρ _ (List.mem_append_left _ hn)).symm),
+    Expr.rename_congr (ρ := ρ) (ρ' := extInj ρ (Expr.namesL exprsIn ++ exprOut.names)) exprOut
+      (fun n hn => (extInj_agree ρ _ (List.mem_append_right _ hn)).symm)]
+  exact h
+
+/-! ### permuting one input of an elementwise operation -/
+
+theorem cellAt_permute_input_reg {v v' : List Dim} {perm : List Nat} {shapes : List (List Nat)} {x : Nat} {σ : Assign}
+    {plan : Plan} (regs : List (Tensor Cell)) (j : Nat)
+    (hperm : isPermOf perm v.length = true) (hv' : permuteL perm v = some v')
+    (hc : Dim.concatFreeL v = true) (hb : BoundedOn σ (Dim.leavesL v))
+    (hx : shapes[x]? = some (viewShape v)) (hplan : planInstr shapes (.transpose x perm) = .ok plan)
+    (hregs : regs[j]? = some ⟨plan.shape, plan.cells⟩) :
+    (cellAt v' (viewShape v') j σ).map (subst regs) = cellAt v (viewShape v) x σ := by
+  obtain ⟨p, hp, hv⟩ := position_valid v hc hb
+  have hlen : (viewShape v).length = v.length := by simp [viewShape]
+  obtain ⟨plan2, hplan2, hshape, _, hreads⟩ :=
+    transpose_plan_ok shapes x (viewShape v) perm hx (by rw [hlen]; exact hperm)
+  rw [hplan] at hplan2
+  have : plan = plan2 := Except.ok.inj hplan2
+  subst this
+  obtain ⟨p', hp', _, hcell⟩ := hreads p hv
+  have hs : plan.shape = viewShape v' := by
+    have := viewShape_permute hv'
+    rw [hshape] at this
+    exact Option.some.inj this
+  have hpos' : position v' σ = some p' := by rw [position_permute hp hv', hp']
+  rw [← hs]
+  simp only [cellAt, flatPos, hpos', hp, Option.map_some, subst_src_reg regs j _ _ hregs, hcell, Option.getD_some]
+
+theorem cellAt_in_range {v : List Dim} {σ : Assign} (i : Nat) (hc : Dim.concatFreeL v = true)
+    (hb : BoundedOn σ (Dim.leavesL v)) : ∃ k, cellAt v (viewShape v) i σ = some (.src i k) ∧ k < prod (viewShape v) := by
+  obtain ⟨p, hp, hv⟩ := position_valid v hc hb
+  exact ⟨ravel (viewShape v) p, by simp [cellAt, flatPos, hp], ravel_lt hv⟩
+
+theorem subst_symInput (regs : List (Tensor Cell)) (i k : Nat) (s : List Nat) (h : regs[i]? = some (symInput i s))
+    (hk : k < prod s) : subst regs (.src i k) = .src i k := by
+  rw [subst_src_reg regs i k _ h]
+  simp [symInput, List.getElem?_range hk]
+
+theorem subst_app (regs : List (Tensor Cell)) (f : String) (args : List Cell) :
+    subst regs (.app f args) = .app f (args.map (subst regs)) := by
+  simp only [subst, evalCell, evalCells_eq_map, symAlg]
+  rfl
+
+/-- One argument of the elementary function: the cell input `q.2` contributes under `σ`. -/
+def ewArg1 (σ : Assign) (q : (List Dim × List Nat) × Nat) : Option Cell :=
+  match extend σ (Dim.leavesL q.1.1) with
+  | some σ' => cellAt q.1.1 q.1.2 q.2 σ'
+  | none => none
+
+theorem ewArgs_eq (ins : List (List Dim × List Nat)) (σ : Assign) : ewArgs ins σ = mapOpt (ewArg1 σ) ins.zipIdx := rfl
+
+theorem ewArg1_fixed {u : List Dim} {σ : Assign} {k : Nat} (regs : List (Tensor Cell))
+    (hc : Dim.concatFreeL u = true) (hcons : Consistent (Dim.leavesL u)) (hr : InRangeOn σ (Dim.leavesL u))
+    (hregs : regs[k]? = some (symInput k (viewShape u))) :
+    (ewArg1 σ ((u, viewShape u), k)).map (subst regs) = ewArg1 σ ((u, viewShape u), k) := by
+  simp only [ewArg1]
+  cases hx : extend σ (Dim.leavesL u) with
+  | none => rfl
+  | some σ1 =>
+    have hE := (extend_isSome_iff _ hcons σ).mp ⟨σ1, hx⟩
+    obtain ⟨pos, hcell, hlt⟩ := cellAt_in_range k hc (bounded_of_extend hr hE hx)
+    simp only [hcell, Option.map_some, subst_symInput regs k pos _ hregs hlt]
+
+theorem ewArg1_permuted {v v' : List Dim} {perm : List Nat} {shapes : List (List Nat)} {j : Nat} {σ : Assign}
+    {plan : Plan} (regs : List (Tensor Cell)) (hperm : isPermOf perm v.length = true) (hv' : permuteL perm v = some v')
+    (hc : Dim.concatFreeL v = true) (hcons : Consistent (Dim.leavesL v)) (hr : InRangeOn σ (Dim.leavesL v))
+    (hx : shapes[j]? = some (viewShape v)) (hplan : planInstr shapes (.transpose j perm) = .ok plan)
+    (hregs : regs[j]? = some ⟨plan.shape, plan.cells⟩) :
+    (ewArg1 σ ((v', viewShape v'), j)).map (subst regs) = ewArg1 σ ((v, viewShape v), j) := by
+  simp only [ewArg1]
+  rcases extend_perm (leavesL_permute hperm hv') hcons σ σ (fun _ => rfl) with ⟨h1, h2⟩ | ⟨σ1, σ1', h1, h2, hs, hE⟩
+  · simp [h1, h2]
+  · have hb : BoundedOn σ1 (Dim.leavesL v) := bounded_of_extend hr hE h1
+    have hcell := cellAt_permute_input_reg regs j hperm hv' hc (hb.sameGet hs) hx hplan hregs
+    rw [← cellAt_sameGet hs v] at hcell
+    simp only [h1, h2, hcell]
+
+theorem mapOpt_pointwise {α α' β β' : Type} (f : α → Option β) (g : α' → Option β') (h : β → β') :
+    ∀ (l : List α) (l' : List α'), l.length = l'.length →
+      (∀ (k : Nat) a a', l[k]? = some a → l'[k]? = some a' → (f a).map h = g a') →
+      (mapOpt f l).map (List.map h) = mapOpt g l' := by
+  intro l
+  induction l with
+  | nil => intro l' hl _; cases l' with
+    | nil => rfl
+    | cons _ _ => simp at hl
+  | cons a l ih =>
+    intro l' hl hp
+    cases l' with
+    | nil => simp at hl
+    | cons a' l' =>
+      have h0 := hp 0 a a' rfl rfl
+      have ih' := ih l' (by simpa using hl) (fun k b b' hb hb' => hp (k + 1) b b' (by simpa using hb) (by simpa using hb'))
+      simp only [mapOpt, ← h0, ← ih']
+      cases f a <;> cases mapOpt f l <;> rfl
+
+/-- **Permuting one input of an elementwise operation together with its tensor leaves the whole result
+unchanged.**  `regs`: the transposed tensor in register `j`, the symbolic inputs elsewhere. -/
+theorem ewCells_permute_input {f : String} {ins : List (List Dim × List Nat)} {j : Nat} {v v' w : List Dim}
+    {perm sw : List Nat} {plan : Plan}
+    (hj : ins[j]? = some (v, viewShape v))
+    (hshape : ∀ p ∈ ins, p.2 = viewShape p.1 ∧ Dim.concatFreeL p.1 = true)
+    (hperm : isPermOf perm v.length = true) (hv' : permuteL perm v = some v')
+    (hcons : ∀ p ∈ ins, Consistent (Dim.leavesL p.1 ++ Dim.leavesL w))
+    (hplan : planInstr (ins.map (·.2)) (.transpose j perm) = .ok plan) :
+    (ewCells f (ins.set j (v', viewShape v')) w sw).map (List.map (subst
+        ((ins.set j (v', viewShape v')).zipIdx.map (fun q =>
+          if q.2 = j then (⟨plan.shape, plan.cells⟩ : Tensor Cell) else symInput q.2 q.1.2))))
+      = ewCells f ins w sw := by
+  generalize hregs : (ins.set j (v', viewShape v')).zipIdx.map (fun q =>
+          if q.2 = j then (⟨plan.shape, plan.cells⟩ : Tensor Cell) else symInput q.2 q.1.2) = regs
+  have hjlt : j < ins.length := by
+    rcases Nat.lt_or_ge j ins.length with h | h
+    · exact h
+    · rw [List.getElem?_eq_none h] at hj; simp at hj
+  have hvin : (v, viewShape v) ∈ ins := List.mem_of_getElem? hj
+  have hargs : ∀ σ ∈ outAssignments w,
+      (ewArgs (ins.set j (v', viewShape v')) σ).map (List.map (subst regs)) = ewArgs ins σ := by
+    intro σ hσ
+    rw [ewArgs_eq, ewArgs_eq]
+    apply mapOpt_pointwise
+    · simp
+    · intro k a a' ha ha'
+      rw [List.getElem?_zipIdx] at ha ha'
+      have hreg : ∀ q, (ins.set j (v', viewShape v')).zipIdx[k]? = some q →
+          regs[k]? = some (if q.2 = j then (⟨plan.shape, plan.cells⟩ : Tensor Cell) else symInput q.2 q.1.2) := by
+        intro q hq
+        rw [← hregs, List.getElem?_map, hq]; rfl
+      by_cases hk : j = k
+      · subst hk
+        simp only [List.getElem?_set, if_true, hjlt, Option.map_some, Option.some.injEq, Nat.zero_add] at ha
+        simp only [hj, Option.map_some, Option.some.injEq, Nat.zero_add] at ha'
+        subst ha ha'
+        have hc := hcons _ hvin
+        refine ewArg1_permuted regs hperm hv' (hshape _ hvin).2
+          (fun a ha b hb => hc a (List.mem_append_left _ ha) b (List.mem_append_left _ hb))
+          (outAssignments_inRange hc hσ) (by simp [hj]) hplan ?_
+        have := hreg ((v', viewShape v'), j) (by simp [List.getElem?_zipIdx, hjlt])
+        simpa using this
+      · simp only [List.getElem?_set, hk, if_false] at ha
+        rw [ha] at ha'
+        simp only [Option.some.injEq] at ha'
+        subst ha'
+        cases hp : ins[k]? with
+        | none => simp [hp] at ha
+        | some p =>
+          simp only [hp, Option.map_some, Option.some.injEq, Nat.zero_add] at ha
+          subst ha
+          have hpin : p ∈ ins := List.mem_of_getElem? hp
+          obtain ⟨u, su⟩ := p
+          obtain ⟨hsu, hcu⟩ := hshape _ hpin
+          simp only at hsu hcu
+          subst hsu
+          have hc := hcons _ hpin
+          refine ewArg1_fixed regs hcu
+            (fun a ha b hb => hc a (List.mem_append_left _ ha) b (List.mem_append_left _ hb))
+            (outAssignments_inRange hc hσ) ?_
+          have := hreg ((u, viewShape u), k) (by simp [List.getElem?_zipIdx, hk, hp])
+          have hkj : ¬ k = j := fun e => hk e.symm
+          simpa [hkj] using this
+  have he : mapOpt (ewEntry f ins w sw) (outAssignments w)
+      = (mapOpt (ewEntry f (ins.set j (v', viewShape v')) w sw) (outAssignments w)).map
+          (List.map (fun e => (e.1, subst regs e.2))) := by
+    rw [← mapOpt_optmap]
+    apply mapOpt_congr
+    intro σ hσ
+    simp only [ewEntry, ← hargs σ hσ]
+    cases ewArgs (ins.set j (v', viewShape v')) σ with
+    | none => rfl
+    | some args =>
+      cases flatPos w sw σ with
+      | none => rfl
+      | some po => simp [subst_app]
+  simp only [ewCells, he]
+  cases mapOpt (ewEntry f (ins.set j (v', viewShape v')) w sw) (outAssignments w) with
+  | none => rfl
+  | some es => simp only [Option.map_some, gatherAll_map]
 
 end Einx.Denote
